@@ -141,6 +141,9 @@ func (IbcEngine) GenConfig(rng *rand.Rand, prop string, tier string) RunConfig {
 			}
 		}
 		base = map[string]int{"xfer": 30, "evm": 8, "relay": 45, "jump": 1, "empty": 2, "fundint": 4, "toggle": 0, "collide": 0}
+		if rng.IntN(2) == 0 {
+			base["toggle"] = 3 // a token pair switched off makes the conversion step of an inbound packet fail
+		}
 	}
 	for _, k := range sortedKeys(base) {
 		v := base[k]
